@@ -36,6 +36,8 @@ func init() {
 			{ID: "R15n", Floor: 1, Doc: "the block callback of SelectiveCar.Write writes every block it is handed: no nil return without LdWrite (the traversal has counted the block and advanced the offset already)", Run: ruleR15n},
 			{ID: "R15o", Floor: 1, Doc: "every traversal of the root-module selective writer has its own visited set: the cid.Set the traverser gets is allocated by cid.NewSet() in SelectiveCar.traverse (Prepare, Write and Dump each walk the DAG)", Run: ruleR15o},
 			{ID: "R15p", Floor: 1, Doc: "the teeing opener answers a CID it has already written with the underlying opener's answer, not with an error or traversal.SkipMe: the walk still reads the block to follow its links", Run: ruleR15p},
+			{ID: "R15q", Floor: 1, Doc: "TraverseToFile creates its destination truncating (os.Create, or OpenFile with O_TRUNC): the file is the CAR of this traversal and nothing more", Run: ruleR15q},
+			{ID: "R15r", Floor: 1, Doc: "without an index the header announces none: in traversalCar.WriteV2Header no With*Padding / WithDataSize is applied after IndexOffset was set to zero", Run: ruleR15r},
 			{ID: "R15c", Floor: 1, Doc: "size-mismatch guard", Run: ruleR15c},
 			{ID: "R15i", Floor: 8, Doc: "the announced section size and the written framing come from the same length formula (= R01b)", Run: ruleR01b},
 		},
@@ -144,10 +146,10 @@ func ruleR15a(c *Ctx, r *Report) {
 	// ---- teeing loader
 	if fn, err := c.Func(pkgLoader, "", "TeeingLinkSystem"); err != nil {
 		r.InfraFail("%v", err)
-	} else if len(fn.AnonFuncs) != 1 {
+	} else if readOpenerOf(fn) == nil {
 		r.Undec("tee-once@"+fnKey(fn), c.Pos(fn.Pos()), "opener closure not found")
 	} else {
-		op := fn.AnonFuncs[0]
+		op := readOpenerOf(fn)
 		key := "tee-once@" + fnKey(op)
 		// returns of a *writingReader only on the not-recorded outcome of the rcrds lookup
 		absent := condEdges(op, func(base ssa.Value) (bool, bool) {
@@ -224,10 +226,10 @@ func ruleR15b(c *Ctx, r *Report) {
 	// ---- counting loader
 	if fn, err := c.Func(pkgLoader, "", "CountingLinkSystem"); err != nil {
 		r.InfraFail("%v", err)
-	} else if len(fn.AnonFuncs) != 1 {
+	} else if readOpenerOf(fn) == nil {
 		r.Undec("size-formula@"+fnKey(fn), c.Pos(fn.Pos()), "opener closure not found")
 	} else {
-		op := fn.AnonFuncs[0]
+		op := readOpenerOf(fn)
 		key := "size-formula@" + fnKey(op)
 		bad := "no update of the running total found"
 		var n ssa.Value
@@ -854,4 +856,35 @@ func ruleR15l(c *Ctx, r *Report) {
 		}
 		r.Check(bad == "", key, c.Pos(fn.Pos()), fmt.Sprintf("%d error return(s) of the opener pass errors on as they are", n), bad)
 	}
+}
+
+// readOpenerOf: the function a link-system constructor installs as StorageReadOpener — its one
+// closure, or the method (value) or named function it stores into that field.
+func readOpenerOf(fn *ssa.Function) *ssa.Function {
+	if len(fn.AnonFuncs) == 1 {
+		return fn.AnonFuncs[0]
+	}
+	var out *ssa.Function
+	n := 0
+	eachInstr(fn, func(in ssa.Instruction) {
+		st, ok := in.(*ssa.Store)
+		if !ok {
+			return
+		}
+		fa, ok := st.Addr.(*ssa.FieldAddr)
+		if !ok {
+			return
+		}
+		if fv := fieldVar(fa.X.Type(), fa.Field); fv == nil || fv.Name() != "StorageReadOpener" {
+			return
+		}
+		if t := funcValueTarget(st.Val); t != nil && t.Blocks != nil {
+			out = t
+			n++
+		}
+	})
+	if n == 1 {
+		return out
+	}
+	return nil
 }
